@@ -165,6 +165,20 @@ pub fn run_c09(r: &mut Report) {
     let pubs: Vec<&PublicKey> = signers.iter().map(|k| k.public()).collect();
     let res = no_panic(|| mb.verify(signers.len() as u32, pubs.clone()));
     r.case("k-signers-threshold-k", json!({"k": signers.len()}), "Ok", format!("{:?}", res.as_ref().map(|v| v.is_ok())), matches!(res, Ok(Ok(_))));
+    // a signature over a very large document (2 MiB of captured output) does not verify over a document that differs elsewhere
+    {
+        let k = key(1);
+        let big = "o".repeat(2 << 20);
+        let mk = |name: &str| MetadataWrapper::Link(LinkMetadataBuilder::new().name(name.to_string())
+            .byproducts(ByProducts::new().set_stdout(big.clone()).set_stderr(String::new()).set_return_value(0)).build().unwrap());
+        let honest = Metablock::new(mk("honest"), &[&k]).unwrap();
+        let mut forged = Metablock::new(mk("zz-forged"), &[]).unwrap();
+        forged.signatures = honest.signatures.clone();
+        let ok_honest = matches!(no_panic(|| honest.verify(1, [k.public()])), Ok(Ok(_)));
+        let forged_rejected = matches!(no_panic(|| forged.verify(1, [k.public()])), Ok(Err(_)));
+        r.case("large-document-signature-binds-all-fields", json!({"stdout_bytes": 2 << 20}), "honest verifies, transplanted signature is rejected",
+               format!("honest_ok={} forged_rejected={}", ok_honest, forged_rejected), ok_honest && forged_rejected);
+    }
     // negatives: other key, flipped bit, other scheme
     let (_, k1) = &ks[0];
     let (_, k2) = &ks[1];
